@@ -579,6 +579,13 @@ class Interp:
           return Lib(e.id)
         raise Undecided('name %s' % e.id)
       return r
+    if isinstance(e, ast.Lambda):
+      fnode = ast.FunctionDef(name='<lambda>', args=e.args,
+                              body=[ast.Return(value=e.body)],
+                              decorator_list=[], lineno=e.lineno,
+                              col_offset=e.col_offset)
+      ast.fix_missing_locations(fnode)
+      return Closure(fnode, dict(self.env))
     if isinstance(e, ast.Tuple):
       return tuple(self.ev(x) for x in e.elts)
     if isinstance(e, ast.List):
@@ -830,8 +837,16 @@ class Interp:
       r = self.world.call(self, '()', callee, args, kwargs, e)
       if r is not NotImplemented:
         return r
-    if isinstance(f, ast.Lambda) or (isinstance(f, ast.Name) and False):
-      raise Undecided('lambda call')
+    if isinstance(f, (ast.Call, ast.Subscript, ast.Lambda, ast.IfExp)):
+      # the callee is itself computed (an entry of a dispatch table, ...)
+      callee = self.ev(f)
+      if isinstance(callee, Closure):
+        return self.call_closure(callee, args, kwargs, e)
+      if isinstance(callee, RepoFunc):
+        return self.invoke(callee.g, args, kwargs, e)
+      r = self.world.call(self, '()', callee, args, kwargs, e)
+      if r is not NotImplemented:
+        return r
     raise Undecided('call %s' % ast.unparse(f)[:50])
 
   def call_closure(self, c, args, kwargs, node):
@@ -1020,6 +1035,34 @@ class Interp:
         return abs(args[0])
       if vec(args[0]) is not None:
         return Arr(abs(x) for x in vec(args[0]))
+    if short == 'array_equal' and len(args) == 2 and \
+            vec(args[0]) is not None and vec(args[1]) is not None:
+      return list(vec(args[0])) == list(vec(args[1]))
+    if short in ('isin', 'in1d') and len(args) == 2 and \
+            vec(args[0]) is not None and vec(args[1]) is not None:
+      inv = bool(kwargs.get('invert', False))
+      return Arr((int((x in vec(args[1])) != inv) for x in vec(args[0])),
+                 mask=True)
+    if short == 'sign' and len(args) == 1 and vec(args[0]) is not None:
+      return Arr((x > 0) - (x < 0) for x in vec(args[0]))
+    if short in ('square',) and len(args) == 1 and vec(args[0]) is not None:
+      return Arr(x * x for x in vec(args[0]))
+    if short in ('logical_not',) and len(args) == 1 and \
+            isinstance(args[0], Arr):
+      return Arr((int(not x) for x in args[0].xs), mask=True)
+    if short in ('logical_or', 'logical_and') and len(args) == 2 and \
+            isinstance(args[0], Arr) and isinstance(args[1], Arr) and \
+            len(args[0]) == len(args[1]):
+      f_ = (lambda a, b: a or b) if short == 'logical_or' else \
+          (lambda a, b: a and b)
+      return Arr((int(bool(f_(a, b))) for a, b in zip(args[0].xs,
+                                                      args[1].xs)), mask=True)
+    if short in ('unique',) and len(args) == 1 and not kwargs and \
+            vec(args[0]) is not None:
+      return Arr(sorted(set(vec(args[0]))))
+    if short in ('setdiff1d',) and len(args) == 2 and \
+            vec(args[0]) is not None and vec(args[1]) is not None:
+      return Arr(sorted(set(vec(args[0])) - set(vec(args[1]))))
     if short in ('amax', 'max', 'amin', 'min') and len(args) == 1 and \
             vec(args[0]):
       return (max if short in ('amax', 'max') else min)(vec(args[0]))
@@ -1156,8 +1199,23 @@ class Interp:
         return self.libcall('numpy.cumsum', [recv], {}, node)
       if attr == 'sum' and not args:
         return sum(recv.xs)
-      if attr in ('copy', 'astype', 'ravel', 'flatten'):
+      if attr == 'astype':
+        t = args[0] if args else kwargs.get('dtype')
+        if t in (Lib('int'), Lib('numpy.int64'), Lib('numpy.int32'),
+                 Lib('numpy.intp'), 'int', 'int64'):
+          import math
+          return Arr(math.trunc(x) for x in recv.xs)   # C truncation
+        if t in (Lib('float'), Lib('numpy.float64'), 'float', 'float64'):
+          return Arr(recv.xs)
+        if t in (Lib('bool'), Lib('numpy.bool_'), 'bool'):
+          return Arr((int(x != 0) for x in recv.xs), mask=True)
+        if all(_is_int(x) for x in recv.xs) and not recv.is_mask:
+          raise Undecided('astype(%r) of an integer vector' % (t,))
+        raise Undecided('astype(%r)' % (t,))
+      if attr in ('copy', 'ravel', 'flatten'):
         return Arr(recv.xs)
+      if attr in ('all', 'any') and not args and not kwargs:
+        return (all if attr == 'all' else any)(bool(x) for x in recv.xs)
       if attr == 'tolist':
         return list(recv.xs)
       if attr == 'max' and recv.xs:
